@@ -17,6 +17,8 @@ enum L {
     UseU(usize),
     UseWrong(usize),
     UseUser(usize),
+    UseUserWrong(usize),
+    UseGhost(usize),
     Disconnect(usize),
 }
 
@@ -78,7 +80,7 @@ impl SeqModel for C17 {
     fn enabled(&self, w: &W, letter: usize) -> bool {
         match &self.letters[letter] {
             L::Connect(i) => w.sessions[*i].is_none(),
-            L::UseT(i) | L::UseU(i) | L::UseWrong(i) | L::UseUser(i) | L::Disconnect(i) => w.sessions[*i].is_some(),
+            L::UseT(i) | L::UseU(i) | L::UseWrong(i) | L::UseUser(i) | L::UseUserWrong(i) | L::UseGhost(i) | L::Disconnect(i) => w.sessions[*i].is_some(),
         }
     }
     fn step(&self, w: &mut W, letter: usize) -> Vec<StepViolation> {
@@ -90,8 +92,10 @@ impl SeqModel for C17 {
                 w.sessions[*i] = Some(Session::new());
                 w.sel[*i] = None;
             }
-            L::UseT(i) | L::UseU(i) | L::UseWrong(i) | L::UseUser(i) => {
+            L::UseT(i) | L::UseU(i) | L::UseWrong(i) | L::UseUser(i) | L::UseUserWrong(i) | L::UseGhost(i) => {
                 let (line, ok, db) = match &l {
+                    L::UseUserWrong(_) => ("use-db t bob nope", false, "t"),
+                    L::UseGhost(_) => ("use-db u ghost x", false, "u"),
                     L::UseT(_) => ("use-db t tok", true, "t"),
                     L::UseU(_) => ("use-db u tok2", true, "u"),
                     L::UseWrong(_) => ("use-db t nope", false, "t"),
@@ -273,6 +277,8 @@ pub fn run(run: &mut Run) {
         letters.push(L::UseU(i));
         letters.push(L::UseWrong(i));
         letters.push(L::UseUser(i));
+        letters.push(L::UseUserWrong(i));
+        letters.push(L::UseGhost(i));
         letters.push(L::Disconnect(i));
     }
     let m = C17 { letters };
